@@ -33,10 +33,15 @@ def strip_comments(src):
     return src
 
 
-def lean_build(log):
+def lean_build(log, prop_id=None):
     t0 = time.time()
-    p = subprocess.run(['lake', 'build', 'T4V', 'driver'], cwd=LEAN_DIR, capture_output=True, text=True)
+    p = subprocess.run(['lake', 'build'], cwd=LEAN_DIR, capture_output=True, text=True)
     log.append('lake build: rc=%d in %.1fs' % (p.returncode, time.time() - t0))
+    if p.returncode != 0 and prop_id:
+        # some other property's proof file may be broken: only this property's files decide here
+        p = subprocess.run(['lake', 'build', 'T4V', 'driver', 'T4V.Props.%s' % prop_id], cwd=LEAN_DIR,
+                           capture_output=True, text=True)
+        log.append('lake build (this property only): rc=%d in %.1fs' % (p.returncode, time.time() - t0))
     return p.returncode == 0, (p.stdout + p.stderr)[-4000:]
 
 
@@ -240,7 +245,7 @@ def main_check(prop_id, modname, argv):
         return 0 if not out.get('violation') else 1
 
     # 1 build + audit -----------------------------------------------------------------
-    ok_build, build_out = lean_build(log)
+    ok_build, build_out = lean_build(log, prop_id)
     if not ok_build:
         # the proof side does not even compile: infrastructure failure unless Props/<id> is the culprit
         print('lean build failed:\n' + build_out)
@@ -324,7 +329,7 @@ def main_check(prop_id, modname, argv):
     samples += [{'obligation': t['name'], 'axioms': t['axioms']} for t in audit['theorems'][:12]]
     cov = dict(
         obligations=audit['obligations'], discharged=audit['discharged'],
-        checker_cmd='cd lean && lake build T4V driver && lake env lean .lake/audit_%s.lean   # #print axioms of every theorem in T4V/Props/%s.lean' % (prop_id, prop_id),
+        checker_cmd='cd lean && lake build && lake env lean .lake/audit_%s.lean   # #print axioms of every theorem in T4V/Props/%s.lean' % (prop_id, prop_id),
         trusted_base=TRUSTED_BASE + getattr(mod, 'EXTRA_TRUST', []),
         evaluations=evaluations, distinct_nontrivial=len(nth), distinct_cases=len(hashes),
         rule=getattr(mod, 'RULE', ''), samples=samples or [{'note': 'no case ran'}],
